@@ -42,6 +42,8 @@ type gl struct {
 	globals map[string]bool // package-level vars referenced (by Go name)
 	mut     map[types.Object]bool
 	yieldT  string // Lean element type when translating an iter.Seq closure
+	curFunc string
+	lits    []string
 	funcs   map[string]*glFunc
 	order   []string
 }
@@ -184,7 +186,13 @@ func (g *gl) constant(e ast.Expr) (ex, bool) {
 	case constant.Bool:
 		return atomE(fmt.Sprintf("%v", constant.BoolVal(tv.Value))), true
 	case constant.String:
-		return atomE(bytesLit([]byte(constant.StringVal(tv.Value)))), true
+		sv := constant.StringVal(tv.Value)
+		if len(sv) >= 4 && g.curFunc != "" { // long literals get a name, so that theorems can refer to them
+			name := fmt.Sprintf("%s_lit%d", g.curFunc, len(g.lits))
+			g.lits = append(g.lits, fmt.Sprintf("def %s : List UInt8 := %s\n", name, bytesLit([]byte(sv))))
+			return atomE(name), true
+		}
+		return atomE(bytesLit([]byte(sv))), true
 	}
 	return ex{}, false
 }
@@ -278,8 +286,14 @@ func (g *gl) binary(v *ast.BinaryExpr) ex {
 	lt := g.typeOf(v.X)
 	l, r := g.expr(v.X), g.expr(v.Y)
 	infix := func(op string) ex { return ex{text: l.opnd2() + " " + op + " " + r.opnd2()} }
+	hasAct := func(e ex) bool { return e.act || strings.Contains(e.text, "(← ") }
 	switch v.Op {
-	case token.ADD, token.SUB, token.MUL:
+	case token.ADD:
+		if isList(lt) { // string concatenation
+			return infix("++")
+		}
+		fallthrough
+	case token.SUB, token.MUL:
 		if isInt(lt) || isByte(lt) {
 			return infix(map[token.Token]string{token.ADD: "+", token.SUB: "-", token.MUL: "*"}[v.Op])
 		}
@@ -311,12 +325,21 @@ func (g *gl) binary(v *ast.BinaryExpr) ex {
 			return ex{text: "shrInt " + l.arg() + " " + r.arg(), act: true}
 		}
 	case token.EQL, token.NEQ, token.LSS, token.LEQ, token.GTR, token.GEQ:
+		if isList(lt) && (v.Op == token.EQL || v.Op == token.NEQ) {
+			return infix(map[token.Token]string{token.EQL: "==", token.NEQ: "!="}[v.Op])
+		}
 		if isInt(lt) || isByte(lt) {
 			return infix(map[token.Token]string{token.EQL: "==", token.NEQ: "!=", token.LSS: "<", token.LEQ: "<=", token.GTR: ">", token.GEQ: ">="}[v.Op])
 		}
 	case token.LAND:
+		if hasAct(r) { // Go evaluates the right operand only when needed (it may panic)
+			return ex{text: "if " + l.opnd2() + " then (do return " + r.opnd2() + ") else pure false", act: true}
+		}
 		return infix("&&")
 	case token.LOR:
+		if hasAct(r) {
+			return ex{text: "if " + l.opnd2() + " then pure true else (do return " + r.opnd2() + ")", act: true}
+		}
 		return infix("||")
 	}
 	g.die(v, "binary operator "+v.Op.String()+" on "+lt.String())
@@ -403,6 +426,12 @@ func (g *gl) call(c *ast.CallExpr) ex {
 			if pn, ok := g.info.Uses[id].(*types.PkgName); ok {
 				if pn.Imported().Path() == "bytes" && f.Sel.Name == "Compare" && len(c.Args) == 2 {
 					return ex{text: "cmp " + g.expr(c.Args[0]).arg() + " " + g.expr(c.Args[1]).arg()}
+				}
+				if pn.Imported().Path() == "strings" && f.Sel.Name == "ContainsAny" && len(c.Args) == 2 {
+					return ex{text: "containsAny " + g.expr(c.Args[0]).arg() + " " + g.expr(c.Args[1]).arg()}
+				}
+				if pn.Imported().Path() == "strings" && f.Sel.Name == "ReplaceAll" && len(c.Args) == 3 {
+					return ex{text: "replaceAll " + g.expr(c.Args[0]).arg() + " " + g.expr(c.Args[1]).arg() + " " + g.expr(c.Args[2]).arg()}
 				}
 			}
 		}
@@ -887,6 +916,8 @@ func (g *gl) function(name, rel, placeholder string) {
 		}
 		g.findMutated(fd.Body)
 		g.yieldT = ""
+		g.curFunc, g.lits = name, nil
+		defer func() { g.curFunc = "" }()
 		sig := fd.Type
 		var params []string
 		var shadow []string
@@ -940,8 +971,8 @@ func (g *gl) function(name, rel, placeholder string) {
 		g.yieldT = ""
 		globals := g.sortedGlobals()
 		all := strings.TrimSpace(g.globalParams(globals) + " " + strings.Join(params, " "))
-		text := fmt.Sprintf("def %s_Found : Bool := true\n/-- translated from %s in %s/%s%s -/\ndef %s %s : Option %s := do\n%s",
-			name, name, rel, file, doc, name, all, paren(resT), w.b.String())
+		text := fmt.Sprintf("def %s_Found : Bool := true\n%s/-- translated from %s in %s/%s%s -/\ndef %s %s : Option %s := do\n%s",
+			name, strings.Join(g.lits, ""), name, rel, file, doc, name, all, paren(resT), w.b.String())
 		return text, globals
 	})
 }
@@ -1148,6 +1179,15 @@ func goLean(repo, out string) {
 	g.function("TranslateReadingFrames", "sequtil", "def TranslateReadingFrames (g_codonToAmino : List (List UInt8 × UInt8)) (seq : "+B+") : Option ("+BB+") := none")
 	for _, n := range g.order {
 		w.WriteString(g.funcs[n].text)
+		w.WriteString("\n")
+	}
+	// formats/newick: the name codec
+	g2 := loadPkg(filepath.Join(repo, "formats", "newick"))
+	g2.function("quoted", "formats/newick", "def quoted (s : "+B+") : Option Bool := none")
+	g2.function("nameFromText", "formats/newick", "def nameFromText (s : "+B+") : Option ("+B+") := none")
+	g2.function("nameToText", "formats/newick", "def nameToText_lit0 : List UInt8 := []\ndef nameToText (s : "+B+") : Option ("+B+") := none")
+	for _, n := range g2.order {
+		w.WriteString(g2.funcs[n].text)
 		w.WriteString("\n")
 	}
 	fmt.Fprintln(w, "end Bio.Generated.GoSrc")
